@@ -204,6 +204,9 @@ class PackageGenerator:
         )
         module_name = method_name
         file_name = f"{module_name}.py"
+        if file_name in self._result_types_files:
+            # dict keeps one module per file, later check can't see this duplicate
+            raise ParsingError(f"Duplicated file names: {file_name}")
 
         query_types_generator = ResultTypesGenerator(
             schema=self.schema,
